@@ -31,6 +31,12 @@ impl Kanata {
             }
         }
         self.cur_keys.extend(self.layout.bm().keycodes());
+        // Keys pressed in a hidden sequence input mode stay in the layout state until they are
+        // released but were never pressed at the OS, also after the sequence has ended.
+        if !self.sequence_hidden_keys.is_empty() {
+            let hidden = &self.sequence_hidden_keys;
+            self.cur_keys.retain(|k| !hidden.contains(k));
+        }
         // While unmod / unshift is active the listed modifiers are not pressed at the OS
         // (see handle_keystate_changes), so they must not be repeated either.
         if !self.unmodded_keys.is_empty() {
